@@ -7,7 +7,8 @@
          listed in [allowed_waits];
      R2  a mutex is only acquired while mutexes of strictly lower rank are held
          (Server.mu < referrerMu < store.mu < upload.mu < repository.mu < cache.mu);
-     R3  every lock expression that occurs is one of the known classes (a new mutex has to be ranked first).
+     R3  every lock expression that occurs is one of the known classes (a new mutex has to be ranked first);
+     R5  no plain receive statement (outside a select) while any mutex is held.
    The held set is simulated per function over the statements in source order; closures (go, func literals) start with
    nothing held; deferred unlocks hold to the end of the function. *)
 From Olareg Require Import Base.
@@ -158,6 +159,13 @@ Definition sim_step (fn : string) (creates_cache : bool) (s : sim) (op : string)
     if existsb global_class (held s) && negb (allowed fn op)
     then mkSim (held s) (stack s) (bad s ++ [(op, "R1: blocking wait under a global mutex")])
     else s
+  else if String.prefix "<-" op then
+    (* R5: a plain receive statement (not a case of a select) waits until somebody sends: never with a mutex held - nobody who
+       needs that mutex can get to the send (a timer created with AfterFunc has no channel at all: such a receive never ends) *)
+    match held s with
+    | [] => s
+    | _ => mkSim (held s) (stack s) (bad s ++ [(op, "R5: receives from a channel while holding a mutex")])
+    end
   else s.
 
 Definition sim_fn (fn : string) (ops : list string) : list (string * string) :=
